@@ -88,6 +88,23 @@ theorem tunnel_request_never_carries_the_listeners_session (j k : Nat) (rq : Req
       have : j - i = (j - (i + 1)) + 1 := by omega
       rw [this] at hx; simpa using hx
 
+/-- A modifier that hijacks the session inside a tunnel is handed the decrypted connection of that
+tunnel - the innermost one (`session.setConn` re-points the session at every level). -/
+theorem hijacker_is_handed_the_innermost_tunnels_connection (s0 : St) (j k : Nat) (rq : ReqB) (rs : ResB)
+    (s' : St) (it : Item)
+    (hj : items[j]? = some (.connectMitm true rq rs)) (hjk : j < k)
+    (hno : ∀ m, j < m → m < k → ∀ x, items[m]? = some x → isTlsMitm x = false)
+    (h : at? sd base s0 0 items k = some (s', it)) :
+    ∀ t tid, Ev.hijacked k t tid ∈ (handleItem sd s' k (base + k) it).1 → t = true ∧ tid = j + 2 := by
+  have hsec := at?_after_mitm sd base s0 0 items j k s' it rq rs (by omega) hjk (by simpa using hj) h
+  obtain ⟨h1, h2, h3⟩ := hsec
+  have hid : s'.tlsId = j + 2 := by
+    rw [(at?_tls sd base s0 0 items k s' it h).1]
+    exact tidAt_after 0 s0.tlsId items j k (by omega) hjk ⟨_, by simpa using hj, rfl⟩
+      (by intro m h1 h2 x hx; exact hno m h1 h2 x (by simpa using hx))
+  intro t tid
+  item_cases it then (try (intro ht; simp_all [hijTid]))
+
 /-- A second CONNECT inside a tunnel opens a session of its own: requests after it carry the inner
 tunnel's state, not the outer tunnel's. -/
 theorem second_connect_inside_tunnel_has_its_own_session (s0 : St) (j1 j2 k : Nat) (rq1 rq2 : ReqB) (rs1 rs2 : ResB)
